@@ -78,9 +78,9 @@ class CVRPTW(Adapter):
             plan = [(3, [(0, 0), (1, 2)], [(0, 0, 0), (2, 0, 1)], [((1, 1, 2), 2), ((1, 2, 1), 4)], 7)]
         else:
             plan = [(3, [(0, 0), (1, 2), (2, 1)], [(0, 0, 0), (2, 0, 1), (1, 3, 0)],
-                     [((1, 1, 2), 2), ((1, 2, 1), 4), ((2, 1, 1), 3)], 125),
+                     [((1, 1, 2), 2), ((1, 2, 1), 4), ((2, 1, 1), 3)], 30),
                     (4, [(0, 0), (1, 1), (3, 2)], [(0, 0, 0, 0), (1, 0, 2, 1)],
-                     [((1, 1, 2, 1), 3), ((2, 1, 1, 2), 4)], 36)]
+                     [((1, 1, 2, 1), 3), ((2, 1, 1, 2), 4)], 15)]
         for (N, tmpl, durs, loads, per) in plan:
             nopt = 5
             allc = list(itertools.product(range(nopt), repeat=N))
@@ -126,9 +126,16 @@ class CVRPTW(Adapter):
     KEYS = ("locs", "demand", "vehicle_capacity", "time_windows", "durations")
 
     def check(self, env, td, actions):
-        env.check_solution_validity(td, actions)
         if td.shape[0] != 1:
+            # fast path for whole batches.  The checker compares every row with the depot closing
+            # time of row 0, so rows are checked together only with rows of the same horizon (then
+            # the batch verdict is exactly the conjunction of the row verdicts).
+            h = td["time_windows"][:, 0, 1]
+            for v in h.unique():
+                idx = (h == v).nonzero().flatten()
+                env.check_solution_validity(td[idx], actions[idx])
             return
+        env.check_solution_validity(td, actions)
         row = TensorDict({k: td[k].clone() for k in self.KEYS}, batch_size=[1])
         mate = self._mate(row, actions)
         if mate is None:
@@ -160,6 +167,9 @@ class CVRPTW(Adapter):
                 hm, cur = max(hm, cur), 0.0
         if hm <= float(d0.max()):
             return None
+        need = (row["time_windows"][0, :, 0] + d0 + row["durations"][0]).max()
+        if float(need) <= hm:
+            return None                 # the mate's horizon cannot matter for this row
         mate = row.clone()
         tw = torch.stack([torch.zeros_like(d0), hm - d0], -1)
         tw[0, 1] = hm
